@@ -43,7 +43,7 @@ def from_value(t, v, model):
     if isinstance(t, TOpt):
         if z3.is_true(model.eval(t.is_none(v), model_completion=True)):
             return None
-        return from_value(t.inner, model.eval(t._dt.val(v), model_completion=True), model)
+        return from_value(t.inner, model.eval(t.val_acc(v), model_completion=True), model)
     if isinstance(t, TSeq):
         return [from_value(t.elem, x, model) for x in seq_items(v, model)]
     raise CannotConcretize(f'sort {t.name}')
